@@ -484,6 +484,8 @@ func checkC04(res *Result) {
 			res.check(okAll, "C04-R9", fname(fn), p.pos(c), "every success return of prepare has gone through the remote resolution of recipients", "resolveActors is conditional: some addressed actors are never resolved, the Accept does not reach them")
 		}
 	}
+	res.Rule("C04-R13", "Create stores the object it fetched, not a blend of the documents fetched so far: every json.Unmarshal in pub decodes into a variable fresh for that decode (local to the activation, declared inside the loop)")
+	checkFreshDecodeTargets(res, p, "C04-R13")
 	res.Assumptions = append(res.Assumptions, "value flow is an over-approximation", "CFG paths over-approximate feasible paths", "what Database.Owns answers is the application's")
 	res.Undecided = []string{"that exactly the named objects are stored (value equality)", "contents of the delivered Accept beyond the sources of actor/object/to"}
 	res.Trusted = []string{"go/types, go/ssa, go/ast (x/tools v0.29.0)", "e1_effects.go, e2_facts.go, e4_flow.go, e9_errflow.go"}
